@@ -416,7 +416,7 @@ Lemma in_mempool_spec sc t tx b t' :
   in_mempool sc t tx = (b, t') -> core t' = core t /\ car_height t' = car_height t /\ car_memo t' = car_memo t.
 Proof. unfold in_mempool. intros H. inversion H. repeat split. Qed.
 
-Definition ua (t : tower) := (gk_users t, db_users t, db_apps t).
+Definition ua (t : tower) := (gk_users t, db_users t, db_apps t, gk_height t).
 
 Lemma core_ua t t' : core t' = core t -> ua t' = ua t.
 Proof. unfold core, ua. intros H. inversion H. reflexivity. Qed.
@@ -478,7 +478,7 @@ Proof.
   - destruct (w_store_appointment t a) as [[] t1|] eqn:E1; cbn [bind]; [|discriminate].
     apply store_spec in E1. destruct E1 as [Ha1 [Hu1 [Hg1 _]]].
     destruct (r_handle_breach sc t1 (app_uuid a) d p) as [s t3|] eqn:E2; cbn [bind]; [|discriminate].
-    apply handle_breach_ua in E2. unfold ua in E2. inversion E2 as [[Hg3 Hu3 Ha3]].
+    apply handle_breach_ua in E2. unfold ua in E2. inversion E2 as [[Hg3 Hu3 Ha3 Hh3]].
     destruct (status_rejected s).
     + unfold gk_delete_appointments. intros H; inversion H; subst; clear H.
       rewrite db_delete_apps_users, db_delete_apps_mem, db_delete_apps_apps.
@@ -787,6 +787,9 @@ Proof. unfold keys_of, cache_block. cbn [ib_data]. rewrite map_map. cbn [fst]. a
 Definition inv_wr : StableWR Inv := sb_wr Inv (sa_block Inv inv_stable).
 
 Lemma ua_fields t t' : ua t' = ua t -> gk_users t' = gk_users t /\ db_users t' = db_users t /\ db_apps t' = db_apps t.
+Proof. unfold ua. intros H. inversion H. auto. Qed.
+
+Lemma ua_height t t' : ua t' = ua t -> gk_height t' = gk_height t.
 Proof. unfold ua. intros H. inversion H. auto. Qed.
 
 Lemma avail_users t t' v : db_users t' = db_users t -> avail t' v = avail t v.
